@@ -23,7 +23,7 @@ from checks.c05 import payload, BOUNDARY
 PROP = "C14"
 LEVEL = "exploration"
 RULE = ("seeded scenarios: populated parent-closed topology of 5..16 nodes over levels 0..4 (several per level), per-node "
-        "allow_multicast on/off, at most one relaying node (levels 1..3, sometimes 4), MCU jitter, sometimes a failed unicast (absent neighbour) right before the multicast, a third of the nodes constructed with another address (any level) and re-addressed before start, a relay whose slow application has 5/6 unread messages queued, bursts of 2-3 multicasts (same type or not) to applications that read late, frame-id counters seeded per node (wrap-around included); 15 % of the runs lossy with only the safety clauses (nothing garbled, nobody else, nothing acknowledged); 1..3 multicasts from every sender class (master, "
+        "allow_multicast on/off, at most one relaying node (levels 1..3, sometimes 4), MCU jitter, sometimes a failed unicast (absent neighbour) right before the multicast, a third of the nodes constructed with another address (any level) and re-addressed before start, a relay whose slow application has 5/6 unread messages queued, bursts of 2-3 multicasts (same type or not) to applications that read late, two nodes multicasting 0-3 ms apart (short or fragmented, equal frame-id counters in half of these), frame-id counters seeded per node (wrap-around included); 15 % of the runs lossy with only the safety clauses (nothing garbled, nobody else, nothing acknowledged); 1..3 multicasts from every sender class (master, "
         "first child 0o1, other level-1 node, deeper levels) x target level in {default, 0..4}, lengths 0..144 (boundary "
         "biased), types 0..127. Non-trivial: the target level holds at least one other listening node; distinct = distinct "
         "abstract event sequences")
@@ -37,7 +37,7 @@ CLAUSES = {"who": "received once by every other listening node of level L that a
            "unacked": "transmitted without requesting acknowledgements; no receiver acknowledges", "relay": "re-broadcast once to the next level, still queued locally",
            "deaf": "allow_multicast off: not listening on the shared level address"}
 SHRINK_KEYS = ("casts",)
-PROBES = ["relay_queue_full", "burst_met_slow_readers", "readdressed"]
+PROBES = ["relay_queue_full", "burst_met_slow_readers", "readdressed", "near_simultaneous_multicasts"]
 CHUNK = 8
 MAX_INCONCLUSIVE = 0.02
 
@@ -135,13 +135,27 @@ def make(i, base_seed, tier):
         casts.append({"kind": "burst", "src": snd, "level": lvl, "lazy": xr.random() < 0.8,
                       "msgs": [{"len": xr.randint(0, 24), "type": ty if same else xr.randint(0, 127), "seed": xr.getrandbits(20)}
                                for _ in range(xr.randint(2, 3))]})
-    senders = {c["src"] for c in casts if c.get("kind") != "failed_unicast"}
+    if relay_node is None and len(topo) >= 3 and xr.random() < 0.25:
+        # two nodes multicast at almost the same time (the second 0..3 ms after the first), short or fragmented, to each other's level
+        # or a common one; frame-id counters equal in half of these runs
+        a_, b_ = xr.sample(topo, 2)
+        lv_ = xr.choice([netref.level(a_), netref.level(b_), None])
+        casts.append({"kind": "duo", "src": a_, "src2": b_, "level": lv_ if lv_ is not None else netref.level(b_), "level2": lv_ if lv_ is not None else netref.level(a_),
+                      "gap_us": xr.randint(0, 3000), "same_ids": xr.random() < 0.5,
+                      "m1": {"len": xr.choice([0, 10, 24, 40, 60, 100]), "type": xr.randint(0, 127), "seed": xr.getrandbits(20)},
+                      "m2": {"len": xr.choice([30, 40, 60, 100, 10]), "type": xr.randint(0, 127), "seed": xr.getrandbits(20)}})
+        if casts[-1]["same_ids"]:
+            fid_ = xr.choice([0, 7, 0xFFFF])
+            for nd in nodes:
+                if nd["addr"] in (a_, b_):
+                    nd["fid_duo"] = fid_
+    senders = {c["src"] for c in casts if c.get("kind") != "failed_unicast"} | {c["src2"] for c in casts if c.get("kind") == "duo"}
     for nd in nodes:
         if nd["addr"] in senders or nd["addr"] == 0:
             nd["allow"] = True   # multicast() on a node that has the feature switched off is not generated
     for nd in nodes:
         # every node's frame-id counter starts at a seeded value, wrap-around included
-        nd["fid"] = xr.choice([0, 1, 0xFFFD, 0xFFFE, 0xFFFF, xr.getrandbits(16)])
+        nd["fid"] = nd.get("fid_duo", xr.choice([0, 1, 0xFFFD, 0xFFFE, 0xFFFF, xr.getrandbits(16)]))
     faults = []
     if xr.random() < 0.15:
         # lossy configuration (separate from the property's loss-free premise): only the safety clauses are enforced - whatever a
@@ -216,6 +230,11 @@ def _run(scn, w, net, res):
                 return node.write(RF24NetworkFrame(RF24NetworkHeader(m["dst"], m["type"]), payload(m["seed"], m["len"])))
             net.call(m["src"], "write", fail, timeout=5000 * MS)
             net.wait_quiet(quiet=5 * MS, timeout=2000 * MS)
+            continue
+        if m.get("kind") == "duo":
+            _duo(m, w, net, res, allow, addrs)
+            if res.violations:
+                break
             continue
         if m.get("kind") == "burst":
             _burst(m, w, net, res, allow, addrs)
@@ -295,6 +314,64 @@ def _run(scn, w, net, res):
     res.sample = {"topology": [oct(nd["addr"]) for nd in scn["nodes"]], "deaf": [oct(nd["addr"]) for nd in scn["nodes"] if not nd["allow"]],
                   "relay": oct(relay_node) if relay_node is not None else None,
                   "casts": [(oct(m["src"]), m.get("kind", "multicast"), m.get("level"), m.get("len"), m.get("type")) for m in scn["casts"]]}
+
+
+def _duo(m, w, net, res, allow, addrs):
+    """two multicasts at almost the same time.  Collisions on the air may legitimately lose fragments (nothing is acknowledged); what
+    is checked: nothing garbled or misdelivered, and a message all of whose fragments a target's radio stored - contiguously, not
+    interleaved with another fragment stream - reaches that target's application once"""
+    sim = w.sim
+    if m["src"] not in addrs or m["src2"] not in addrs:
+        return
+    msgs = {m["src"]: (m["m1"]["type"], payload(m["m1"]["seed"], m["m1"]["len"]), m["level"]),
+            m["src2"]: (m["m2"]["type"], payload(m["m2"]["seed"], m["m2"]["len"]), m["level2"])}
+    if msgs[m["src"]][:2] == msgs[m["src2"]][:2]:
+        return
+    marks = {k: len(nc.log) for k, nc in net.nodes.items()}
+    a0 = len(w.air.trace)
+    c1 = net.post(m["src"], "multicast", lambda node: node.multicast(msgs[m["src"]][1], msgs[m["src"]][0], msgs[m["src"]][2]))
+    net.hold(m["src2"], m["gap_us"] * US)
+    c2 = net.post(m["src2"], "multicast", lambda node: node.multicast(msgs[m["src2"]][1], msgs[m["src2"]][0], msgs[m["src2"]][2]))
+    for c in (c1, c2):
+        net.wait(c, timeout=5000 * MS)
+        if not c.done or c.exc is not None:
+            res.add("who", {"kind": "multicast_raised_or_hung", "exc": type(c.exc).__name__}, "multicast() %s: %r" % ("raised" if c.done else "did not return", c.exc))
+            return
+    net.wait_quiet(quiet=12 * MS, timeout=3000 * MS)
+    sim.count("near_simultaneous_multicasts")
+    res.nontrivial = True
+    sig = {"duo": True, "same_ids": bool(m.get("same_ids"))}
+    sent_set = {(src, t, d) for src, (t, d, _) in msgs.items()}
+    for k, nc in net.nodes.items():
+        got = [(e[1], e[3], e[4]) for e in nc.log[marks[k]:]]
+        for g in got:
+            if g not in sent_set:
+                res.add("who", dict(sig, kind="garbled"), "node %o dequeued from %o type %d %d bytes; the multicasts were %r" % (k, g[0], g[1], len(g[2]), [(oct(x[0]), x[1], len(x[2])) for x in sent_set]))
+                return
+        # which fragment frames did this node's radio store, in which order?
+        stored = [t for t in w.air.trace[a0:] if not t["ack"] and ("n%s" % k, "stored") in [tuple(x) for x in t["rx"]] and len(t["data"]) >= 8]
+        for src, (t_, d_, L_) in msgs.items():
+            if k == src or not allow.get(k, True) or netref.level(k) != L_:
+                if (src, t_, d_) in got and (netref.level(k) != L_ or k == src):
+                    res.add("who", dict(sig, kind="wrong_receiver", is_sender=k == src), "node %o (level %d) dequeued the multicast %o sent to level %d" % (k, netref.level(k), src, L_))
+                    return
+                continue
+            ref = netref.fragment(src, 0o100, 0, t_, d_)
+            mine = [i for i, t in enumerate(stored) if t["src"] == "n%s" % src]
+            complete = len(mine) == len(ref) and mine == list(range(mine[0], mine[0] + len(ref))) if mine else False
+            n_ = got.count((src, t_, d_))
+            if complete and n_ != 1 and len(nc.node.queue) < nc.node.queue.max_queue_size:
+                res.add("who", dict(sig, kind="stored_by_the_radio_but_not_delivered" if n_ == 0 else "duplicate"),
+                        "node %o: its radio stored all %d frame(s) of the multicast from %o one after the other, its application dequeued the message %d times"
+                        % (k, len(ref), src, n_))
+                return
+            if n_ > 1:
+                res.add("who", dict(sig, kind="duplicate"), "node %o dequeued the multicast from %o %d times" % (k, src, n_))
+                return
+    for t in w.air.trace[a0:]:
+        if t["ack"]:
+            res.add("unacked", dict(sig, kind="ack_on_air"), "an ACK packet from %s appeared on the air after a multicast" % t["src"])
+            return
 
 
 def _burst(m, w, net, res, allow, addrs):
